@@ -57,6 +57,17 @@ class Oracle:
 
 
 # ------------------------------------------------------------------ C01 / C03
+F13 = "C03:F14:fluent-distribute-trough-destination-virtual-rows"
+
+
+def _flat(x):
+    if isinstance(x, (list, tuple)):
+        for y in x:
+            yield from _flat(y)
+    else:
+        yield x
+
+
 class ReplayOracle(Oracle):
     """C01: after every successful operation the records replay to the tracked state.
        C03: after every operation (also the failing one) the records replay safely and no A/D step
@@ -79,6 +90,15 @@ class ReplayOracle(Oracle):
         if op["op"] in ("dispense", "aspirate"):
             self.tainted = True
         dev = self.prog["cfg"]["dev"]
+        if op["op"] == "distribute" and exc is None and dev == "fluent":
+            # known finding F14: a Fluent numbers a trough column as one position, so several virtual rows of one
+            # destination trough column are ONE dispense of the R; record while the tracking books one per listed well
+            spec = self.prog["labs"][op["dst"]]
+            kind, ws = op["dst_wells"]
+            ws = [ws] if kind == "S" else [w for w in _flat(ws)]
+            cols = [str(w)[1:] for w in ws]
+            if (spec.get("vrows") is not None or spec.get("kind") == "trough") and len(set(cols)) != len(cols):
+                self.f14 = True
         recs = [str(r) for r in run.wl]
         rp = gwl.Replay(dev, self.prog["labs"], run.init_state)
         try:
@@ -87,6 +107,12 @@ class ReplayOracle(Oracle):
             self.fail("C09:grammar", f"after op {i} ({op['op']}): {e}", i)
             return
         except gwl.ReplayError as e:
+            if getattr(self, "f14", False):
+                # the replay disagrees with the tracking after the listed input: the known finding, not a new one
+                if F13 not in self.known and self.check_safe:
+                    self.known.append(F13)
+                self.skip = True
+                return
             for k in rp.known:
                 if k not in self.known and self.check_state:
                     self.known.append(k)
@@ -101,7 +127,7 @@ class ReplayOracle(Oracle):
             mv = F(self.prog["cfg"]["max_volume"])
             if rp.max_step > mv + EPS:
                 self.fail(f"C03:step-above-max-volume:{op['op']}", f"after op {i}: a record carries {rp.max_step} > max_volume {mv}", i)
-        if exc is None and self.check_state:
+        if exc is None and self.check_state and not getattr(self, "f14", False):
             for li, (L, RL) in enumerate(zip(run.labs, rp.order)):
                 vols = [q(v) for v in L.volumes.flatten()]
                 for wi, (a, b) in enumerate(zip(vols, RL.vols)):
